@@ -124,17 +124,17 @@ def run(ctx):
             continue
         n_api += 1
         ctx.touch(f)
-        paths = enum_paths(f)
+        # private helpers inlined; the queueing functions and other public APIs stay opaque
+        paths = ipaths(F, f, stop=lambda n, me=name: n in senders or (n != me and n in F.fns and F.fns[n].rec.get("reachable") and "CommandAcknowledgement" in F.fns[n].rec.get("ret", "")), depth=2)
         ctx.analysed["paths"] += len(paths)
         bad = []
         for p in paths:
-            sc = [(b, t) for b, t in path_calls(f, p) if t.get("rpath") in senders]
+            sc = p.calls(senders)
             if len(sc) > 1:
-                bad.append(("%d commands queued on one path" % len(sc), p))
+                bad.append(("%d commands queued on one path" % len(sc), p.trace))
             elif len(sc) == 1:
-                r = path_return(f, p)
-                if strip_site(r) != strip_site(f.origin_call(sc[0][0], sc[0][1])):
-                    bad.append(("the queued command's acknowledgement is not what is returned", p))
+                if strip_site(p.ret) != strip_site(sc[0].res):
+                    bad.append(("the queued command's acknowledgement is not what is returned", p.trace))
         ctx.check(not bad and paths, "R11.4", "%s|one-send-per-call" % name,
                   "a write API call queues at most one command and returns that command's send result (%d paths)" % len(paths),
                   f.where(), "; ".join("%s via %s" % x for x in bad[:3]))
